@@ -333,3 +333,97 @@ Section Narrow.
       apply Hst. exists bm, info, es. split; [apply Hsub; exact Hin|]. split; assumption.
   Qed.
 End Narrow.
+
+(* ---------- the same selection, spelled differently (what --partition requires) ---------- *)
+Lemma list_eqb_str_eq a : forall b, list_eqb str_eqb a b = true -> a = b.
+Proof.
+  induction a as [|x a IH]; intros [|y b]; cbn; try discriminate; [reflexivity|].
+  intros E. apply andb_true_iff in E. destruct E as [E1 E2]. apply str_eqb_eq in E1. subst. f_equal. apply IH, E2.
+Qed.
+
+Lemma selected_builders_same_order b s s' : sel_same_order s s' = true -> selected_builders b s = selected_builders b s'.
+Proof.
+  destruct s as [|l], s' as [|l']; cbn; try discriminate; [reflexivity|].
+  intros E. apply list_eqb_str_eq in E. rewrite E. reflexivity.
+Qed.
+
+Lemma selects_same_set s s' n : sel_same_set s s' = true -> selects s n = selects s' n.
+Proof.
+  unfold sel_same_set. intros E. apply andb_true_iff in E. destruct E as [E1 E2].
+  destruct s as [|l], s' as [|l']; cbn in *; try discriminate; [reflexivity|].
+  rewrite forallb_forall in E1, E2.
+  destruct (mem_str n l) eqn:M1, (mem_str n l') eqn:M2; try reflexivity.
+  - apply mem_str_In in M1. specialize (E2 n M1). congruence.
+  - apply mem_str_In in M2. specialize (E1 n M2). congruence.
+Qed.
+
+Lemma selected_bins_same_set b s s' local : sel_same_set s s' = true -> selected_bins b s local = selected_bins b s' local.
+Proof.
+  intros E. pose proof (fun n => selects_same_set s s' n E) as Hsel.
+  unfold selected_bins.
+  assert (Hf : filter (fun m => selects s (m_name m)) (binaries b) = filter (fun m => selects s' (m_name m)) (binaries b)).
+  { apply filter_ext. intros m. apply Hsel. }
+  destruct s as [|l], s' as [|l']; try (unfold sel_same_set in E; cbn in E; discriminate).
+  - reflexivity.
+  - (* the unknown-name test finds a name in one list iff in the other *)
+    set (unknown := fun a => negb (existsb (fun m => str_eqb a (m_name m)) (binaries b))).
+    assert (Hu : (exists a, In a l /\ unknown a = true) <-> (exists a, In a l' /\ unknown a = true)).
+    { split; intros (a & Ha & Hn); exists a; (split; [|exact Hn]); apply mem_str_In.
+      - change (selects (SelSome l') a = true). rewrite <- (Hsel a). cbn. apply mem_str_In. exact Ha.
+      - change (selects (SelSome l) a = true). rewrite (Hsel a). cbn. apply mem_str_In. exact Ha. }
+    destruct (find unknown l) as [a|] eqn:F1, (find unknown l') as [a'|] eqn:F2.
+    + reflexivity.
+    + exfalso. apply find_some in F1. destruct (proj1 Hu (ex_intro _ a F1)) as (x & Hx & Hn).
+      pose proof (find_none _ _ F2 x Hx). congruence.
+    + exfalso. apply find_some in F2. destruct (proj2 Hu (ex_intro _ a' F2)) as (x & Hx & Hn).
+      pose proof (find_none _ _ F1 x Hx). congruence.
+    + rewrite Hf. reflexivity.
+Qed.
+
+Lemma count_filter_In {A} (m n : nat) : forall (l : list A) i x, In x (count_filter m n i l) -> In x l.
+Proof.
+  induction l as [|y t IH]; intros i x; cbn [count_filter]; [tauto|].
+  rewrite in_app_iff. intros [H|H]; [|right; eapply IH; exact H].
+  destruct (Nat.eqb (Nat.modulo i n) (m - 1)); [destruct H as [->|[]]; left; reflexivity|destruct H].
+Qed.
+Lemma part_filter_In b p l x : In x (part_filter b p l) -> In x l.
+Proof.
+  destruct p as [|m n|keep]; cbn [part_filter]; [tauto|apply count_filter_In|].
+  intros H. apply filter_In in H. tauto.
+Qed.
+
+Section Same.
+  Variable H : list ascii -> N.
+  Variable EV : str -> evr.
+
+  (* the same builders in the same order and the same set of apps: the same generation, whatever the partition *)
+  Theorem generate_same_selection b le bsel asel bsel' asel' local part select disable cli_env :
+    sel_same_order bsel bsel' = true -> sel_same_set asel asel' = true ->
+    generate H EV b le bsel asel local part select disable cli_env =
+    generate H EV b le bsel' asel' local part select disable cli_env.
+  Proof.
+    intros E1 E2. unfold generate.
+    rewrite (selected_builders_same_order b _ _ E1), (selected_bins_same_set b _ _ local E2). reflexivity.
+  Qed.
+
+  (* every configured build of a generation is one the selectors select *)
+  Theorem generated_builds_selected b le bsel asel local part select disable cli_env g :
+    generate H EV b le bsel asel local part select disable cli_env = Ok g ->
+    forall x, In x (gr_builds g) -> selects bsel (bi_builder x) = true /\ selects asel (bi_binary x) = true.
+  Proof.
+    intros HG x Hx.
+    destruct (generate_builds H EV _ _ _ _ _ _ _ _ _ _ HG) as (bs & bins & Hbs & Hbins & Hbuilds).
+    apply Hbuilds in Hx. destruct Hx as ([i m] & es & Hin & Hc). apply part_filter_In, pairs_In in Hin. destruct Hin as [Hi Hm].
+    destruct (configure_build_inv H EV _ _ _ _ _ _ _ _ _ Hc) as (bctx & ba & bin_ctx & anc & rst & Hg & _ & _ & _ & _ & _ & _ & Hb1 & Hb2).
+    cbn [fst snd] in *. rewrite Hb1, Hb2. split.
+    - destruct bsel as [|l]; [reflexivity|]. cbn.
+      pose proof (proj1 (selected_builders_spec _ _ _ Hbs i) Hi) as (c & Hgc & _ & Hl & _). rewrite Hg in Hgc. injection Hgc as <-.
+      apply mem_str_In. exact Hl.
+    - destruct asel as [|l]; [reflexivity|].
+      unfold selected_bins in Hbins. destruct (find _ l); [discriminate|].
+      assert (Hf : In m (filter (fun m0 => selects (SelSome l) (m_name m0)) (binaries b))).
+      { destruct local as [dir|]; [|injection Hbins as <-; exact Hm].
+        destruct (forallb _ _); [|discriminate]. injection Hbins as <-. exact Hm. }
+      apply filter_In in Hf. tauto.
+  Qed.
+End Same.
